@@ -17,14 +17,15 @@
   commented `example` about the OLD formula in the Examples section.
 
   NOT PROVED (validated by the float stream of tools/props/c19.py only, see SPEC["not_proved"]):
-  * that IEEE-754 binary32/binary64 arithmetic satisfies `RoundModel` (true for round-to-nearest absent
-    overflow/underflow with u = 2⁻²⁴ / 2⁻⁵³; Mathlib has no IEEE theory);
+  * that the HARDWARE arithmetic is the idealised rounding `rnd 53` / `rnd 24` (round to nearest even, unbounded
+    exponent; `Model/Rounding.lean`).  That `rnd p` satisfies `RoundModel` with u = 2⁻ᵖ, is odd, monotone and exact
+    on p-bit numbers IS proved (`Lemmas/Rounding.lean`, `Props/C19b.lean`), so the `C19_fl_*` theorems are
+    unconditional for it; the identification with the machine is validated by the `flop` stream, and overflow /
+    underflow / subnormal results are excluded;
   * bit-for-bit clauses on the machine types (compound = binary, dot symmetric, cross antisymmetric):
     proved here for every arithmetic (`FlR fl` with `fl` arbitrary) as equalities of model terms, which
     is the content of "bit for bit" given that the Rust evaluates the same expression; the statement
     about the compiled code is validated, not proved;
-  * that machine rounding is monotone / fixes representable numbers (hypotheses of
-    `C19_fl_p2_average_between`), and odd (hypothesis of `C19_fl_v3_cross_antisymm`);
   * accuracy of `hypot`/`sqrt`/`acos`: "`unit_dir` returns a vector of norm 1 ± 1e-12 (f64) / 1e-5 (f32)" and
     "skewness ≈ 0 / invariant up to 1e-9" are exact theorems over ℝ here and tolerance tests there;
   * the angle sum of a simple polygon (hypothesis `hsum` of `C19_skew_mem_Ico`), and that the corner angles
@@ -420,23 +421,28 @@ end RealDir
 
 `RoundModel fl u` is the standard model of floating-point arithmetic: every operation returns
 `fl` of the exact result of the operation on its (floating-point) arguments, and `fl` commits a
-relative error of at most `u < 1`.  It is a HYPOTHESIS of the theorems below (true of IEEE-754
-round-to-nearest with `u = 2⁻⁵³` / `2⁻²⁴` as long as no overflow or underflow occurs — the domain of
-the property; not proved here).  `FlR fl` instantiates the coordinate type of the model with this
+relative error of at most `u < 1`.  It is a HYPOTHESIS of the theorems below; `Props/C19b.lean` proves
+that the idealised IEEE rounding `rnd p` (round to nearest even, `p` bits, unbounded exponent — i.e.
+binary64 / binary32 as long as no overflow or underflow occurs, the domain of the property) satisfies
+it with `u = 2⁻ᵖ`, which makes every theorem below unconditional for that rounding.  `FlR fl` instantiates the coordinate type of the model with this
 arithmetic, so the statements are about the model definitions themselves (`V2.sub`, `P2.orient`, …)
 evaluated operation by operation in the order the Rust evaluates them. -/
 section Rounding
+set_option linter.unusedSectionVars false
+/- the coordinate field: any ordered field (ℝ in the examples; ℚ — the exact values of floats — for the
+   unconditional instance `rnd 53` / `rnd 24` of `Props/C19b.lean`) -/
+variable {K : Type} [Field K] [LinearOrder K] [IsStrictOrderedRing K]
 
-structure RoundModel (fl : ℝ → ℝ) (u : ℝ) : Prop where
+structure RoundModel {K : Type} [Field K] [LinearOrder K] [IsStrictOrderedRing K] (fl : K → K) (u : K) : Prop where
   u_nonneg : 0 ≤ u
   u_lt_one : u < 1
   err : ∀ x, |fl x - x| ≤ u * |x|
 
 /-- values of the rounded arithmetic: real numbers, with every operation followed by `fl` -/
-structure FlR (fl : ℝ → ℝ) where
-  val : ℝ
+structure FlR {K : Type} (fl : K → K) where
+  val : K
 
-variable {fl : ℝ → ℝ} {u : ℝ}
+variable {fl : K → K} {u : K}
 
 instance : Add (FlR fl) := ⟨fun a b => ⟨fl (a.val + b.val)⟩⟩
 instance : Sub (FlR fl) := ⟨fun a b => ⟨fl (a.val - b.val)⟩⟩
@@ -454,13 +460,13 @@ instance : OfNat (FlR fl) 2 := ⟨⟨2⟩⟩
 @[simp] theorem FlR.neg_val (a : FlR fl) : (-a).val = -a.val := rfl
 
 /-- the real point with the same coordinates -/
-def toR2 (p : P2 (FlR fl)) : P2 ℝ := ⟨p.x.val, p.y.val⟩
+def toR2 (p : P2 (FlR fl)) : P2 K := ⟨p.x.val, p.y.val⟩
 
 theorem RoundModel.fl_zero (h : RoundModel fl u) : fl 0 = 0 := by
   have := h.err 0
   simpa using this
 
-theorem RoundModel.fl_pos_iff (h : RoundModel fl u) (x : ℝ) : 0 < fl x ↔ 0 < x := by
+theorem RoundModel.fl_pos_iff (h : RoundModel fl u) (x : K) : 0 < fl x ↔ 0 < x := by
   have he := abs_le.mp (h.err x)
   have hu := h.u_lt_one
   have hu0 := h.u_nonneg
@@ -474,7 +480,7 @@ theorem RoundModel.fl_pos_iff (h : RoundModel fl u) (x : ℝ) : 0 < fl x ↔ 0 <
     rw [abs_of_pos hx] at he
     nlinarith [he.1]
 
-theorem RoundModel.fl_neg_iff (h : RoundModel fl u) (x : ℝ) : fl x < 0 ↔ x < 0 := by
+theorem RoundModel.fl_neg_iff (h : RoundModel fl u) (x : K) : fl x < 0 ↔ x < 0 := by
   have he := abs_le.mp (h.err x)
   have hu := h.u_lt_one
   have hu0 := h.u_nonneg
@@ -489,7 +495,7 @@ theorem RoundModel.fl_neg_iff (h : RoundModel fl u) (x : ℝ) : fl x < 0 ↔ x <
     nlinarith [he.2]
 
 /-- multiplicative form of the error: `fl x = x · d` with `|d − 1| ≤ u` -/
-theorem RoundModel.fl_rel (h : RoundModel fl u) (x : ℝ) : ∃ d, |d - 1| ≤ u ∧ fl x = x * d := by
+theorem RoundModel.fl_rel (h : RoundModel fl u) (x : K) : ∃ d, |d - 1| ≤ u ∧ fl x = x * d := by
   by_cases hx : x = 0
   · subst hx
     exact ⟨1, by simpa using h.u_nonneg, by simpa using h.fl_zero⟩
@@ -524,7 +530,7 @@ theorem C19_fl_p3_sub_self (h : RoundModel fl u) (p : P3 (FlR fl)) :
 /-! ### `(v + u) − v ≈ u` -/
 
 /-- scalar form: `|fl(fl(a + b) − a) − b| ≤ (2u + u²)(|a| + |b|)` -/
-theorem RoundModel.add_sub_bound (h : RoundModel fl u) (a b : ℝ) :
+theorem RoundModel.add_sub_bound (h : RoundModel fl u) (a b : K) :
     |fl (fl (a + b) - a) - b| ≤ (2 * u + u ^ 2) * (|a| + |b|) := by
   have hu0 := h.u_nonneg
   have h1 := h.err (a + b)
@@ -595,7 +601,7 @@ theorem C19_fl_p3_average_comm (a b : P3 (FlR fl)) : P3.average a b = P3.average
     true of round-to-nearest; the sign of a zero component is not represented in `FlR`) -/
 theorem C19_fl_v3_cross_antisymm (hodd : ∀ x, fl (-x) = -fl x) (a b : V3 (FlR fl)) :
     V3.cross a b = V3.neg (V3.cross b a) := by
-  have key : ∀ p q r s : ℝ, fl (fl (p * q) - fl (r * s)) = -fl (fl (s * r) - fl (q * p)) := by
+  have key : ∀ p q r s : K, fl (fl (p * q) - fl (r * s)) = -fl (fl (s * r) - fl (q * p)) := by
     intro p q r s
     rw [← hodd, mul_comm s r, mul_comm q p]
     congr 1; ring
@@ -605,7 +611,7 @@ theorem C19_fl_v3_cross_antisymm (hodd : ∀ x, fl (-x) = -fl x) (a b : V3 (FlR 
 
 /-! ### the orientation sign outside the rounding band -/
 
-theorem mul_err {a b p q : ℝ} (ha : |a - 1| ≤ p) (hb : |b - 1| ≤ q) :
+theorem mul_err {a b p q : K} (ha : |a - 1| ≤ p) (hb : |b - 1| ≤ q) :
     |a * b - 1| ≤ p + q + p * q := by
   have e : a * b - 1 = (a - 1) * (b - 1) + (a - 1) + (b - 1) := by ring
   rw [e]
@@ -618,7 +624,7 @@ theorem mul_err {a b p q : ℝ} (ha : |a - 1| ≤ p) (hb : |b - 1| ≤ q) :
     _ ≤ p + q + p * q := by linarith
 
 /-- a rounded product of two rounded factors: `|fl(fl x · fl y) − x·y| ≤ (3u + 3u² + u³)·|x·y|` -/
-theorem RoundModel.prod_bound (h : RoundModel fl u) (x y : ℝ) :
+theorem RoundModel.prod_bound (h : RoundModel fl u) (x y : K) :
     |fl (fl x * fl y) - x * y| ≤ (3 * u + 3 * u ^ 2 + u ^ 3) * |x * y| := by
   obtain ⟨d1, hd1, e1⟩ := h.fl_rel x
   obtain ⟨d2, hd2, e2⟩ := h.fl_rel y
@@ -633,7 +639,7 @@ theorem RoundModel.prod_bound (h : RoundModel fl u) (x y : ℝ) :
 
 /-- the band around collinearity inside which the computed sign is not guaranteed:
     `|A·B| + |C·D|` for the four coordinate differences of `cross_product_from_vertices` -/
-def orientBand (a b c : P2 ℝ) : ℝ :=
+def orientBand (a b c : P2 K) : K :=
   |(b.x - a.x) * (c.y - b.y)| + |(b.y - a.y) * (c.x - b.x)|
 
 /-- **orientation sign.**  Evaluate `cross_product_from_vertices` in rounded arithmetic (7 rounded
@@ -665,7 +671,7 @@ theorem C19_fl_orient_sign (h : RoundModel fl u) (a b c : P2 (FlR fl))
 
 /-- difference of two rounded products of floats:
     `|fl(fl(x·y) − fl(z·w)) − (x·y − z·w)| ≤ (2u + u²)(|x·y| + |z·w|)` -/
-theorem RoundModel.sub_prod_bound (h : RoundModel fl u) (x y z w : ℝ) :
+theorem RoundModel.sub_prod_bound (h : RoundModel fl u) (x y z w : K) :
     |fl (fl (x * y) - fl (z * w)) - (x * y - z * w)| ≤ (2 * u + u ^ 2) * (|x * y| + |z * w|) := by
   obtain ⟨d1, hd1, e1⟩ := h.fl_rel (x * y)
   obtain ⟨d2, hd2, e2⟩ := h.fl_rel (z * w)
@@ -689,7 +695,7 @@ theorem RoundModel.sub_prod_bound (h : RoundModel fl u) (x y z w : ℝ) :
 
 /-- a rounded three-term dot product of arbitrary reals `s_i = x_i·y_i`:
     `|fl(fl(fl s0 + fl s1) + fl s2) − (s0 + s1 + s2)| ≤ (3u + 3u² + u³)(|s0| + |s1| + |s2|)` -/
-theorem RoundModel.dot3_bound (h : RoundModel fl u) (s0 s1 s2 : ℝ) :
+theorem RoundModel.dot3_bound (h : RoundModel fl u) (s0 s1 s2 : K) :
     |fl (fl (fl s0 + fl s1) + fl s2) - (s0 + s1 + s2)|
       ≤ (3 * u + 3 * u ^ 2 + u ^ 3) * (|s0| + |s1| + |s2|) := by
   have hu0 := h.u_nonneg
@@ -728,15 +734,15 @@ theorem RoundModel.dot3_bound (h : RoundModel fl u) (s0 s1 s2 : ℝ) :
 
 /-- magnitude against which the orthogonality defect of the computed cross product is measured:
     `Σ |w_i|·(|p_i| + |q_i|)` where `p_i − q_i` is the i-th component of `a × b` -/
-def crossMag (a b w : V3 ℝ) : ℝ :=
+def crossMag (a b w : V3 K) : K :=
   |w.x| * (|a.y * b.z| + |a.z * b.y|) + |w.y| * (|a.z * b.x| + |a.x * b.z|)
     + |w.z| * (|a.x * b.y| + |a.y * b.x|)
 
-def toR3 (v : V3 (FlR fl)) : V3 ℝ := ⟨v.x.val, v.y.val, v.z.val⟩
+def toR3 (v : V3 (FlR fl)) : V3 K := ⟨v.x.val, v.y.val, v.z.val⟩
 
 /-- scalar core: if `ĉ_i` approximates `c_i` with `|ĉ_i − c_i| ≤ ε·m_i`, `|c_i| ≤ m_i` and `Σ c_i w_i = 0`, the rounded dot
     product `ĉ·w` is bounded by `(ε + γ₃(1 + ε))·Σ|w_i| m_i` -/
-theorem RoundModel.orth_bound (h : RoundModel fl u) {c0 c1 c2 k0 k1 k2 m0 m1 m2 w0 w1 w2 ε : ℝ}
+theorem RoundModel.orth_bound (h : RoundModel fl u) {c0 c1 c2 k0 k1 k2 m0 m1 m2 w0 w1 w2 ε : K}
         (h0 : |k0 - c0| ≤ ε * m0) (h1 : |k1 - c1| ≤ ε * m1) (h2 : |k2 - c2| ≤ ε * m2)
     (b0 : |c0| ≤ m0) (b1 : |c1| ≤ m1) (b2 : |c2| ≤ m2)
     (horth : c0 * w0 + c1 * w1 + c2 * w2 = 0) :
@@ -746,18 +752,18 @@ theorem RoundModel.orth_bound (h : RoundModel fl u) {c0 c1 c2 k0 k1 k2 m0 m1 m2 
   have hg : 0 ≤ 3 * u + 3 * u ^ 2 + u ^ 3 := by positivity
   have hd := h.dot3_bound (k0 * w0) (k1 * w1) (k2 * w2)
   -- |k_i| ≤ (1 + ε) m_i
-  have kb : ∀ {k c m : ℝ}, |k - c| ≤ ε * m → |c| ≤ m → |k| ≤ (1 + ε) * m := by
+  have kb : ∀ {k c m : K}, |k - c| ≤ ε * m → |c| ≤ m → |k| ≤ (1 + ε) * m := by
     intro k c m hk hc
     have : |k| ≤ |k - c| + |c| := by
       have := abs_add_le (k - c) c
       simpa using this
     linarith
-  have kw : ∀ {k c m w : ℝ}, |k - c| ≤ ε * m → |c| ≤ m → |k * w| ≤ (1 + ε) * (|w| * m) := by
+  have kw : ∀ {k c m w : K}, |k - c| ≤ ε * m → |c| ≤ m → |k * w| ≤ (1 + ε) * (|w| * m) := by
     intro k c m w hk hc
     rw [abs_mul]
     have := mul_le_mul_of_nonneg_right (kb hk hc) (abs_nonneg w)
     linarith
-  have ew : ∀ {k c m w : ℝ}, |k - c| ≤ ε * m → |(k - c) * w| ≤ ε * (|w| * m) := by
+  have ew : ∀ {k c m w : K}, |k - c| ≤ ε * m → |(k - c) * w| ≤ ε * (|w| * m) := by
     intro k c m w hk
     rw [abs_mul]
     have := mul_le_mul_of_nonneg_right hk (abs_nonneg w)
@@ -808,7 +814,7 @@ theorem C19_fl_v3_cross_dot_bound (h : RoundModel fl u) (a b : V3 (FlR fl)) :
       (abs_sub _ _) (abs_sub _ _) (abs_sub _ _) (by ring)
 
 /-- the constant is below `6u` for every `u ≤ 1/16` (so for `2⁻²⁴` and `2⁻⁵³`): the bound used by the float oracle -/
-theorem cross_dot_const_le {u : ℝ} (h0 : 0 ≤ u) (h1 : u ≤ 1 / 16) :
+theorem cross_dot_const_le {u : K} (h0 : 0 ≤ u) (h1 : u ≤ 1 / 16) :
     (2 * u + u ^ 2) + (3 * u + 3 * u ^ 2 + u ^ 3) * (1 + (2 * u + u ^ 2)) ≤ 6 * u := by
   have h2 : u ^ 2 ≤ u / 16 := by nlinarith
   have h3 : u ^ 3 ≤ u / 256 := by nlinarith
@@ -821,13 +827,13 @@ theorem cross_dot_const_le {u : ℝ} (h0 : 0 ≤ u) (h1 : u ≤ 1 / 16) :
 /-! ### the computed average lies between its arguments -/
 
 /-- `x` and `2x` are representable (true of every finite float whose double does not overflow) -/
-def Rep (fl : ℝ → ℝ) (x : ℝ) : Prop := fl x = x ∧ fl (2 * x) = 2 * x
+def Rep (fl : K → K) (x : K) : Prop := fl x = x ∧ fl (2 * x) = 2 * x
 
 /-- with a MONOTONE rounding, the computed midpoint `fl(fl(a + b) / 2)` of two representable numbers lies
     between them (no relative-error hypothesis needed) -/
-theorem fl_mid_between (hmono : Monotone fl) {a b : ℝ} (ha : Rep fl a) (hb : Rep fl b) :
+theorem fl_mid_between (hmono : Monotone fl) {a b : K} (ha : Rep fl a) (hb : Rep fl b) :
     min a b ≤ fl (fl (a + b) / 2) ∧ fl (fl (a + b) / 2) ≤ max a b := by
-  have key : ∀ {x y : ℝ}, Rep fl x → Rep fl y → x ≤ y →
+  have key : ∀ {x y : K}, Rep fl x → Rep fl y → x ≤ y →
       x ≤ fl (fl (x + y) / 2) ∧ fl (fl (x + y) / 2) ≤ y := by
     intro x y hx hy hxy
     have h1 : 2 * x ≤ fl (x + y) := by
@@ -1354,10 +1360,10 @@ example : ∃ r k, unitDirR3 ⟨1, 2, 2⟩ = .ok r ∧ V3.div ⟨1, 2, 2⟩ (Rea
     V3.normSq r = 1 ∧ 0 < k ∧ r = V3.mul ⟨1, 2, 2⟩ k := C19_unitDirR3_spec ⟨1, 2, 2⟩ (by simp)
 
 -- (b) the rounding model is satisfiable: exact arithmetic, and a genuinely inexact rounding
-theorem roundModel_id : RoundModel id 0 := ⟨le_rfl, one_pos, fun x => by simp⟩
+theorem roundModel_id : RoundModel (id : ℝ → ℝ) 0 := ⟨le_rfl, one_pos, fun x => by simp⟩
 
 /-- `fl x = x·(1 + 1/4)` commits exactly the maximal relative error `u = 1/4` -/
-theorem roundModel_quarter : RoundModel (fun x => x * (1 + 1 / 4)) (1 / 4) :=
+theorem roundModel_quarter : RoundModel (fun x : ℝ => x * (1 + 1 / 4)) (1 / 4) :=
   ⟨by norm_num, by norm_num, fun x => by
     have : x * (1 + 1 / 4) - x = 1 / 4 * x := by ring
     rw [this, abs_mul]; norm_num⟩
@@ -1366,32 +1372,32 @@ example : (fun x : ℝ => x * (1 + 1 / 4)) 0 = 0 := roundModel_quarter.fl_zero
 example : 0 < (fun x : ℝ => x * (1 + 1 / 4)) 2 ↔ (0 : ℝ) < 2 := roundModel_quarter.fl_pos_iff 2
 example : (fun x : ℝ => x * (1 + 1 / 4)) (-2) < 0 ↔ (-2 : ℝ) < 0 := roundModel_quarter.fl_neg_iff (-2)
 example : ∃ d, |d - 1| ≤ (1 / 4 : ℝ) ∧ (fun x : ℝ => x * (1 + 1 / 4)) 2 = 2 * d := roundModel_quarter.fl_rel 2
-example (v : V2 (FlR fun x => x * (1 + 1 / 4))) : V2.sub v v = ⟨⟨0⟩, ⟨0⟩⟩ := C19_fl_v2_sub_self roundModel_quarter v
-example (v : V3 (FlR fun x => x * (1 + 1 / 4))) : V3.sub v v = ⟨⟨0⟩, ⟨0⟩, ⟨0⟩⟩ := C19_fl_v3_sub_self roundModel_quarter v
-example (v : P2 (FlR fun x => x * (1 + 1 / 4))) : P2.sub v v = ⟨⟨0⟩, ⟨0⟩⟩ := C19_fl_p2_sub_self roundModel_quarter v
-example (v : P3 (FlR fun x => x * (1 + 1 / 4))) : P3.sub v v = ⟨⟨0⟩, ⟨0⟩, ⟨0⟩⟩ := C19_fl_p3_sub_self roundModel_quarter v
+example (v : V2 (FlR fun x : ℝ => x * (1 + 1 / 4))) : V2.sub v v = ⟨⟨0⟩, ⟨0⟩⟩ := C19_fl_v2_sub_self roundModel_quarter v
+example (v : V3 (FlR fun x : ℝ => x * (1 + 1 / 4))) : V3.sub v v = ⟨⟨0⟩, ⟨0⟩, ⟨0⟩⟩ := C19_fl_v3_sub_self roundModel_quarter v
+example (v : P2 (FlR fun x : ℝ => x * (1 + 1 / 4))) : P2.sub v v = ⟨⟨0⟩, ⟨0⟩⟩ := C19_fl_p2_sub_self roundModel_quarter v
+example (v : P3 (FlR fun x : ℝ => x * (1 + 1 / 4))) : P3.sub v v = ⟨⟨0⟩, ⟨0⟩, ⟨0⟩⟩ := C19_fl_p3_sub_self roundModel_quarter v
 example (a b : ℝ) : |(fun x : ℝ => x * (1 + 1 / 4)) ((fun x : ℝ => x * (1 + 1 / 4)) (a + b) - a) - b|
     ≤ (2 * (1 / 4) + (1 / 4) ^ 2) * (|a| + |b|) := roundModel_quarter.add_sub_bound a b
-example (v w : V2 (FlR fun x => x * (1 + 1 / 4))) :=
+example (v w : V2 (FlR fun x : ℝ => x * (1 + 1 / 4))) :=
   C19_fl_v2_add_sub_bound roundModel_quarter v w
-example (v w : V3 (FlR fun x => x * (1 + 1 / 4))) :=
+example (v w : V3 (FlR fun x : ℝ => x * (1 + 1 / 4))) :=
   C19_fl_v3_add_sub_bound roundModel_quarter v w
-example (p : P2 (FlR fun x => x * (1 + 1 / 4))) (w : V2 (FlR fun x => x * (1 + 1 / 4))) :=
+example (p : P2 (FlR fun x : ℝ => x * (1 + 1 / 4))) (w : V2 (FlR fun x : ℝ => x * (1 + 1 / 4))) :=
   C19_fl_p2_add_sub_bound roundModel_quarter p w
-example (p : P3 (FlR fun x => x * (1 + 1 / 4))) (w : V3 (FlR fun x => x * (1 + 1 / 4))) :=
+example (p : P3 (FlR fun x : ℝ => x * (1 + 1 / 4))) (w : V3 (FlR fun x : ℝ => x * (1 + 1 / 4))) :=
   C19_fl_p3_add_sub_bound roundModel_quarter p w
-example (a b : V2 (FlR fun x => x * (1 + 1 / 4))) : V2.dot a b = V2.dot b a := C19_fl_v2_dot_comm a b
-example (a b : V3 (FlR fun x => x * (1 + 1 / 4))) : V3.dot a b = V3.dot b a := C19_fl_v3_dot_comm a b
-example (a b : P2 (FlR fun x => x * (1 + 1 / 4))) : P2.average a b = P2.average b a := C19_fl_p2_average_comm a b
-example (a b : P3 (FlR fun x => x * (1 + 1 / 4))) : P3.average a b = P3.average b a := C19_fl_p3_average_comm a b
+example (a b : V2 (FlR fun x : ℝ => x * (1 + 1 / 4))) : V2.dot a b = V2.dot b a := C19_fl_v2_dot_comm a b
+example (a b : V3 (FlR fun x : ℝ => x * (1 + 1 / 4))) : V3.dot a b = V3.dot b a := C19_fl_v3_dot_comm a b
+example (a b : P2 (FlR fun x : ℝ => x * (1 + 1 / 4))) : P2.average a b = P2.average b a := C19_fl_p2_average_comm a b
+example (a b : P3 (FlR fun x : ℝ => x * (1 + 1 / 4))) : P3.average a b = P3.average b a := C19_fl_p3_average_comm a b
 /-- the oddness hypothesis of the antisymmetry theorem is satisfiable by an inexact rounding -/
-example (a b : V3 (FlR fun x => x * (1 + 1 / 4))) : V3.cross a b = V3.neg (V3.cross b a) :=
+example (a b : V3 (FlR fun x : ℝ => x * (1 + 1 / 4))) : V3.cross a b = V3.neg (V3.cross b a) :=
   C19_fl_v3_cross_antisymm (fun x => by ring) a b
 example (x y : ℝ) := roundModel_quarter.prod_bound x y
 
 /-- the band hypothesis of the orientation theorem is satisfiable with an inexact rounding (`u = 1/4`,
     band factor `61/64`): the standard frame is far from collinear, the computed sign is right -/
-example : 0 < (P2.orient (α := FlR fun x => x * (1 + 1 / 4)) ⟨⟨0⟩, ⟨0⟩⟩ ⟨⟨1⟩, ⟨0⟩⟩ ⟨⟨0⟩, ⟨1⟩⟩).val :=
+example : 0 < (P2.orient (α := FlR fun x : ℝ => x * (1 + 1 / 4)) ⟨⟨0⟩, ⟨0⟩⟩ ⟨⟨1⟩, ⟨0⟩⟩ ⟨⟨0⟩, ⟨1⟩⟩).val :=
   (C19_fl_orient_sign roundModel_quarter ⟨⟨0⟩, ⟨0⟩⟩ ⟨⟨1⟩, ⟨0⟩⟩ ⟨⟨0⟩, ⟨1⟩⟩
     (by norm_num [orientBand, toR2, P2.orient])).1.mpr (by norm_num [toR2, P2.orient])
 
@@ -1438,7 +1444,7 @@ example : corners ([1, 2, 3].map (· + 1)) = (corners [1, 2, 3]).map fun c => (c
 -- added rounding theorems
 example (x y z w : ℝ) := roundModel_quarter.sub_prod_bound x y z w
 example (s0 s1 s2 : ℝ) := roundModel_quarter.dot3_bound s0 s1 s2
-example (a b : V3 (FlR fun x => x * (1 + 1 / 4))) := C19_fl_v3_cross_dot_bound roundModel_quarter a b
+example (a b : V3 (FlR fun x : ℝ => x * (1 + 1 / 4))) := C19_fl_v3_cross_dot_bound roundModel_quarter a b
 /-- the hypotheses of the scalar core are satisfiable: exact cross product of `e_x`, `e_y` against `e_x` -/
 example := roundModel_quarter.orth_bound (c0 := 0) (c1 := 0) (c2 := 1) (k0 := 0) (k1 := 0) (k2 := 1)
   (m0 := 0) (m1 := 0) (m2 := 1) (w0 := 1) (w1 := 0) (w2 := 0) (ε := 0)
